@@ -738,5 +738,9 @@ func gen(r *vh.Rand, tier string) []string {
 	for i := 0; i < nEng/3; i++ {
 		out = append(out, genGscn(r))
 	}
+	// plain grpc gun with a configured timeout against a target that accepts calls and stays silent
+	for i := 0; i < nEng/4; i++ {
+		out = append(out, genGcall(r))
+	}
 	return out
 }
